@@ -210,9 +210,18 @@ def gen_case(rng):
     return case
 
 
+DIRECTED = [dict(op='file', key=k, filename=f, mode=m, variant=v)
+            for k, f in (('k1', 'flnk_out'), ('k1', 'flnk_dangling'), ('k1', 'flnk_sib'), ('k1', 'flnk_dir'), ('k1', 'flnk_in'),
+                         ('k1', '../k2/g'), ('k1', '/etc/passwd_lv'), ('k1', 'sub/inner'), ('lnk_sib', 'f1'), ('lnk_out', 'canary'),
+                         ('lnk_abs', 'deep'), ('lnk_deep', 'inner'), ('lnk_up', 'plainfile'), ('new', 'newfile'), ('k2', 'g'))
+            for m in ('r', 'w', 'a') for v in (0, 1)] + \
+           [dict(op=o, key=k, variant=v) for o in ('delete', 'exists')
+            for k in ('lnk_out', 'lnk_sib', 'lnk_abs', 'lnk_up', 'lnk_deep', 'lnk_file', 'k1', '..', 'k1/../k2', 'lnk_dangling') for v in (0, 1)]
+
+
 def run(prop, report, tier, seed, replay=None):
     rng = rng_for(seed, prop, 'paths')
-    cases = [replay['input']['case']] if replay else [gen_case(rng) for _ in range(VOLUME[tier])]
+    cases = [replay['input']['case']] if replay else DIRECTED + [gen_case(rng) for _ in range(VOLUME[tier])]
     if tier == 'thorough' and not replay:
         cases += [dict(op='file', key=k, filename=f, mode=m, variant=0) for k in KEYS for f in FILES for m in ('r', 'w')]
         cases += [dict(op=o, key=k, variant=v) for k in KEYS for o in ('exists', 'delete') for v in (0, 1)]
